@@ -92,6 +92,37 @@ def variant_sig_of(raw_reply):
     return body[1:1 + n].decode('ascii')
 
 
+def changed_variant_sig(sig_msg):
+    """type of the variant inside PropertiesChanged (body 'sa{sv}as' with one entry), read from the wire"""
+    from . import wire_ref as W2
+    vals, _ = decode_keep_variants('sa{sv}as', sig_msg.rawBody)
+    d = vals[1]
+    return list(d.values())[0]
+
+
+def decode_keep_variants(sig, data):
+    """decode with the reference codec but report, for a{sv}, the signature of each variant instead of its value"""
+    import struct
+    from . import wire_ref as W2
+    # interface string
+    n = struct.unpack_from('<I', data, 0)[0]
+    pos = 4 + n + 1
+    pos += len(W2.pad(pos, 4))
+    alen = struct.unpack_from('<I', data, pos)[0]
+    pos += 4
+    pos += len(W2.pad(pos, 8))
+    end = pos + alen
+    out = {}
+    while pos < end:
+        pos += len(W2.pad(pos, 8))
+        k, pos = W2.dec1('s', data, pos, True)
+        sl = data[pos]
+        vsig = data[pos + 1: pos + 1 + sl].decode('ascii')
+        out[k] = vsig
+        _, pos = W2.dec1('v', data, pos, True)
+    return ['', out, []], pos
+
+
 def plain(v):
     if isinstance(v, (list, tuple)):
         return [plain(x) for x in v]
@@ -111,6 +142,12 @@ def history(rnd, steps):
             key = rnd.choice(keys)
             m = model[key]
             v = rnd.choice(SIG_VALUES[m['sig']])
+            if m['sig'] in 'yiux' and rnd.random() < 0.4:
+                # a value that already carries ANOTHER DBus type tag (a wrapper of a different width): the declaration decides
+                from txdbus import marshal as _m
+                other = rnd.choice([c for c in (_m.Byte, _m.Int32, _m.UInt32, _m.Int64, _m.UInt64, _m.Int16) if c.dbusSignature != m['sig']])
+                small = abs(int(v)) % 100
+                v = other(small)
             del conn.sent[:]
             try:
                 setattr(obj, m['attr'], v)
@@ -125,6 +162,10 @@ def history(rnd, steps):
                 s = message.parseMessage(sigs[0].rawMessage, [])
                 if s.interface != PROPS_IFACE or s.path != '/org/verif/Props' or s.body[0] != key[0] or list(s.body[1]) != [key[1]] or not W.same(s.body[1][key[1]], plain(v)) or s.body[2] != []:
                     return '%s: PropertiesChanged for %r = %r carried %r' % (what0, key, v, s.body)
+                if m['sig'] in BASIC:
+                    vs = changed_variant_sig(s)
+                    if vs != m['sig']:
+                        return '%s: PropertiesChanged for %r = %r carries a variant of type %r, declared %r' % (what0, key, v, vs, m['sig'])
             elif sigs:
                 return '%s: assigning %r (emits=%s) produced a PropertiesChanged signal' % (what0, key, m['emits'])
         elif op in ('get', 'get_wrong'):
